@@ -84,6 +84,7 @@ def api_job(j):
     rt.base(tid, base, list(base.columns), [])
     flows = [c for c in data_cols if c.endswith("_m") and df[c].dtype.kind == "f"]
     k = 0
+    alt_runs = {}
     for c in rnd.sample(flows, min(3, len(flows))) + ["bruttolohn_m", "betreuungskost_m"]:
         for u in rnd.sample(["y", "w", "d"], 2):
             k += 1
@@ -96,8 +97,70 @@ def api_job(j):
                 info["errors"].append({"input": c, "as": new, "error": f"{type(e).__name__}: {str(e)[:160]}"})
                 continue
             rt.run(tid, k, "close", r2, list(r2.columns))
+            alt_runs[k] = r2
             info.setdefault("alt", {})[k] = (c, new)
+    # ---- an input in another unit stored as INTEGERS (whole euros per year, not multiples of 12): the derived units and
+    #      everything downstream must be what the same numbers stored as floats give
+    vy = np.round(df["bruttolohn_m"].to_numpy() * 12).astype(np.int64) + (np.arange(len(df)) % 11) + 1
+    ext = ["bruttolohn_m", "bruttolohn_w", "bruttolohn_d", "bruttolohn_m_hh"]
+    try:
+        d_f = df.drop(columns=["bruttolohn_m"]).copy()
+        d_f["bruttolohn_y"] = vy.astype(float)
+        d_i = df.drop(columns=["bruttolohn_m"]).copy()
+        d_i["bruttolohn_y"] = vy
+        b_f = gs.compute(d_f, date, targets=dt + ext)
+        r_i = gs.compute(d_i, date, targets=dt + ext)
+        tid2 = tid + 1_000_000
+        rt.base(tid2, b_f, list(b_f.columns), [])
+        k += 1
+        rt.run(tid2, k, "close", r_i, list(r_i.columns))
+        info.setdefault("alt", {})[k] = ("bruttolohn_m", "bruttolohn_y:int64")
+        for n_, u_ in (("bruttolohn_m", "m"), ("bruttolohn_w", "w"), ("bruttolohn_d", "d")):
+            tr.add({"k": "conv", "a": n_, "ua": u_, "xa": tr.cells(r_i[n_].to_numpy().astype(float)), "b": "bruttolohn_y", "ub": "y", "xb": tr.cells(vy.astype(float))},
+                   {"via": "api-int-input", "node": n_, "src": "bruttolohn_y", "date": date, "tid": tid})
+    except Exception as e:  # noqa: BLE001
+        info["errors"].append({"input": "bruttolohn_m", "as": "bruttolohn_y:int64", "error": f"{type(e).__name__}: {str(e)[:160]}"})
     o = rt.judge()
+    # ---- a difference is only a violation if it is not explained by floating-point rounding of the input itself: the
+    #      statement allows the round trip to be the identity "up to floating-point rounding", and rules with steps (floor to
+    #      whole euros, thresholds) turn a last-bit difference of a wage that sits exactly on a step into a visible one.
+    #      Accepted iff some value within 4 ulp of the original monthly input reproduces the alternative-unit run.
+    badk = sorted({b["run"] for b in o["bad"]})
+    if badk:
+        rt2 = runs.RunTrace(work, f"c13c_{tid}")
+        cand_of = {}
+        kk = 0
+        for bk in badk:
+            c, new = info["alt"][bk]
+            if ":" in new or bk not in alt_runs:
+                continue
+            x = df[c].to_numpy()
+            for nudge in (-1, 1, -2, 2, -3, 3, -4, 4):
+                y = x.copy()
+                for _ in range(abs(nudge)):
+                    y = np.nextafter(y, np.inf if nudge > 0 else -np.inf)
+                y = np.where(x == 0.0, 0.0, y)
+                d3 = df.copy()
+                d3[c] = y
+                try:
+                    b3 = gs.compute(d3, date, targets=dt)
+                except Exception:  # noqa: BLE001
+                    continue
+                kk += 1
+                t3 = tid + 2_000_000 + kk
+                rt2.base(t3, b3, list(b3.columns), [])
+                rt2.run(t3, kk, "close", alt_runs[bk], list(alt_runs[bk].columns))
+                cand_of[t3] = bk
+        if cand_of:
+            o2 = rt2.judge()
+            failed = {}
+            for b in o2["bad"]:
+                failed.setdefault(b["tid"], set()).add(b["col"])
+            explained = {cand_of[t] for t in cand_of if t not in failed}
+            if explained:
+                info["rounding_explained"] = [info["alt"][bk] for bk in sorted(explained)]
+                o["bad"] = [b for b in o["bad"] if b["run"] not in explained]
+            o["tlc_states"] += o2["tlc_states"]
     info["bad_runs"] = o["bad"]
     info["tlc_states"] = o["tlc_states"]
     return info, tr
@@ -137,6 +200,8 @@ def run(tier):
                 continue
             seen.add((c, b["col"]))
             chk.violation(f"C13|alt-unit|input={c}|col={b['col']}", f"supplying {c} as {new} changes {b['col']} (date {info['date']})", {"date": info["date"], "persons": info["persons"], "input": c, "as": new, "col": b["col"]})
+        if info.get("rounding_explained"):
+            chk.notes.setdefault("differences_explained_by_input_rounding", []).append({"date": info["date"], "inputs": info["rounding_explained"]})
         chk.cov["traces_validated_against_impl"] += 1 + len(info.get("alt", {}))
         chk.count(len(info.get("alt", {})))
         chk.sample({"date": info["date"], "persons": info["n"], "time_nodes_checked": info.get("n_conv"), "inputs_in_other_units": list(info.get("alt", {}).values())[:4]})
@@ -157,7 +222,7 @@ def run(tier):
         "the 12 converters on a value grid; per population every derived time node of the call's function table (as derived by Derive.tla, individual and group level incl. requested group/time combinations) "
         "against its source with rounding on; 5 flow inputs supplied in 2 other units each with all default targets compared; distinct_nontrivial = distinct time nodes / converters checked"
     )
-    chk.assumptions += ["factor identity to 1e-12 relative on exact decimals; alternative-unit inputs to 1e-9", "well-formedness W1/W2 of the rule base (one explicit definition per flow)"]
+    chk.assumptions += ["factor identity to 1e-12 relative on exact decimals; alternative-unit inputs to 1e-9; a difference after supplying an input in another unit is not reported when a value within 4 ulp of the original input reproduces it (round trip is the identity only up to floating-point rounding, rules contain steps)", "well-formedness W1/W2 of the rule base (one explicit definition per flow)"]
     return chk.finish()
 
 
